@@ -126,6 +126,9 @@ def breakpoints(name: str, p: dict) -> list[float]:
         a, b = vals[0], vals[1]
         out.append(0.5 * (a + b))
         out.append(a + (b - a) / 2)
+    if name == "Concave":
+        # pole of the two quotients (e-i)/(2e-i-x), (i-e)/(i-2e+x): lies in the branch np.where discards
+        out.append(2.0 * p["end"] - p["inflection"])
     if name in ("Cosine",):
         out += [p["center"] - 0.5 * p["width"], p["center"] + 0.5 * p["width"]]
     if name == "PiShape":
